@@ -49,17 +49,40 @@ let put_rec rc dims = put_i rc.n; put_f rc.digest; for k = 0 to dims - 1 do put_
 
 (* the user's function of a case *)
 exception Inner_stop of float res
-type user = { e : fexpr; inner : (method0 * z * fexpr * fexpr * fexpr) option }
-let parse_user r =
+type user = { e : fexpr; inner : (method0 * z * fexpr * fexpr * fexpr) option; deep : (int * method0 * z * fexpr list * user) option }
+let rec parse_user r =
   let e = parse_fexpr r in
   if more r && r.toks.(r.pos) = "@" then begin
     ignore (word r);
     let im = parse_method (coq_string (word r)) in
     let ip = z_of_int (integer r) in
     let lo = parse_fexpr r in let hi = parse_fexpr r in let inn = parse_fexpr r in
-    { e; inner = Some (im, ip, lo, hi, inn) }
-  end else { e; inner = None }
-let eval_user u x y z : float =
+    { e; inner = Some (im, ip, lo, hi, inn); deep = None }
+  end else if more r && r.toks.(r.pos) = "@@" then begin
+    (* 'v 3' is a call of one of the four entry points on a user function of its own *)
+    ignore (word r);
+    let dop = (match word r with "named1d" -> 1 | "nested2d" -> 2 | "nested3d" -> 3 | "spherical" -> 4 | o -> failwith ("unknown_inner_op_" ^ o)) in
+    let dm = parse_method (coq_string (word r)) in
+    let dp = z_of_int (integer r) in
+    let nl = (match dop with 1 -> 2 | 2 -> 4 | _ -> 6) in
+    let lims = List.init nl (fun _ -> ()) |> List.map (fun () -> parse_fexpr r) in
+    let u' = parse_user r in
+    { e; inner = None; deep = Some (dop, dm, dp, lims, u') }
+  end else { e; inner = None; deep = None }
+let rec eval_user u x y z : float =
+  match u.deep with
+  | Some (dop, dm, dp, lims, u') ->
+      let v = [| x; y; z; 0.0 |] in
+      let l = Array.of_list (List.map (fun f -> eval_fexpr f v) lims) in
+      let c = (match dop with
+        | 1 -> Call_1d (dm, dp, (fun t -> Ok (eval_user u' t 0.0 0.0)), l.(0), l.(1))
+        | 2 -> Call_2d (dm, dp, (fun a b -> eval_user u' a b 0.0), l.(0), l.(1), l.(2), l.(3))
+        | 3 -> Call_3d (dm, dp, (fun a b c -> eval_user u' a b c), l.(0), l.(1), l.(2), l.(3), l.(4), l.(5))
+        | _ -> Call_spherical (dm, dp, (fun a b c -> eval_user u' a b c), l.(0), l.(1), l.(2), l.(3), l.(4), l.(5))) in
+      (match run_call fops stand_in no_mc c with
+       | Ok i -> eval_fexpr u.e [| x; y; z; i |]
+       | other -> raise (Inner_stop other))
+  | None ->
   match u.inner with
   | None -> eval_fexpr u.e [| x; y; z; 0.0 |]
   | Some (im, ip, lo, hi, inn) ->
@@ -69,7 +92,7 @@ let eval_user u x y z : float =
        | other -> raise (Inner_stop other))
 
 (* one call of a case line (the operation name has been read): the model's call, its recorder, its number of axes *)
-let build_call op r : float call * recd * int =
+let build_call op r : float call * recd * int * bool =
   let m = parse_method (coq_string (word r)) in
   let p = z_of_int (integer r) in
   let rc = new_rec () in
@@ -78,24 +101,25 @@ let build_call op r : float call * recd * int =
       let a = num r in let b = num r in
       let u = parse_user r in
       let f = match u.inner with
+        | None when u.deep <> None -> (fun x -> rc.n <- rc.n + 1; rc.digest <- rc.digest +. x; see rc 0 x; Ok (eval_user u x 0.0 0.0))
         | None -> (fun x -> rc.n <- rc.n + 1; rc.digest <- rc.digest +. x; see rc 0 x; Ok (eval_fexpr u.e [| x; 0.0; 0.0; 0.0 |]))
         | Some (im, ip, lo, hi, inn) ->
             let outer x i = rc.n <- rc.n + 1; rc.digest <- rc.digest +. x; see rc 0 x; eval_fexpr u.e [| x; 0.0; 0.0; i |] in
             let inner x t = eval_fexpr inn [| x; 0.0; 0.0; t |] in
             let flo x = eval_fexpr lo [| x; 0.0; 0.0; 0.0 |] and fhi x = eval_fexpr hi [| x; 0.0; 0.0; 0.0 |] in
             reentrant_integrand fops stand_in im ip outer inner flo fhi in
-      (Call_1d (m, p, f, a, b), rc, 1)
+      (Call_1d (m, p, f, a, b), rc, 1, u.deep <> None)
   | "nested2d" ->
       let x1 = num r in let x2 = num r in let y1 = num r in let y2 = num r in
       let u = parse_user r in
       let f x y = rc.n <- rc.n + 1; rc.digest <- rc.digest +. (x +. 2.0 *. y); see rc 0 x; see rc 1 y; eval_user u x y 0.0 in
-      (Call_2d (m, p, f, x1, x2, y1, y2), rc, 2)
+      (Call_2d (m, p, f, x1, x2, y1, y2), rc, 2, u.deep <> None)
   | "nested3d" ->
       let x1 = num r in let x2 = num r in let y1 = num r in let y2 = num r in let z1 = num r in let z2 = num r in
       let u = parse_user r in
       let f x y z = rc.n <- rc.n + 1; rc.digest <- rc.digest +. (x +. 2.0 *. y +. 3.0 *. z); see rc 0 x; see rc 1 y; see rc 2 z;
         eval_user u x y z in
-      (Call_3d (m, p, f, x1, x2, y1, y2, z1, z2), rc, 3)
+      (Call_3d (m, p, f, x1, x2, y1, y2, z1, z2), rc, 3, u.deep <> None)
   | "spherical" ->
       let r1 = num r in let r2 = num r in let c1 = num r in let c2 = num r in let f1 = num r in let f2 = num r in
       let u = parse_user r in
@@ -107,9 +131,12 @@ let build_call op r : float call * recd * int =
         let az = azmid +. (dz -. 2.0 *. Float.pi *. Float.round (dz /. (2.0 *. Float.pi))) in
         see rc 0 nrm; see rc 1 (z /. nrm); (if x <> 0.0 || y <> 0.0 then see rc 2 az);
         eval_user u x y z in
-      (Call_spherical (m, p, f, r1, r2, c1, c2, f1, f2), rc, 3)
+      (Call_spherical (m, p, f, r1, r2, c1, c2, f1, f2), rc, 3, u.deep <> None)
   | o -> failwith ("unknown_op_" ^ o)
 
+(* the recorder, and for a user function with inner calls ('@@') the value of the call with the inner calls made beforehand from the top level:
+   the model has no state, a call nested inside an integrand is answered by the function of its own arguments, so this is the value again *)
+let put_tail rc dims deep res = put_rec rc dims; (if deep then match res with Ok v -> put_f v | _ -> ())
 let put_res = function
   | Ok v -> put_f v; put_f v; true
   | Exit -> put_w "EXIT"; false
@@ -128,11 +155,11 @@ let handler r =
         acc := build_call op r :: !acc
       done;
       let calls = List.rev !acc in
-      let results = run_session fops stand_in no_mc (List.map (fun (c, _, _) -> c) calls) in
+      let results = run_session fops stand_in no_mc (List.map (fun (c, _, _, _) -> c) calls) in
       List.iteri (fun j res ->
-        let (_, rc, dims) = List.nth calls j in
+        let (_, rc, dims, deep) = List.nth calls j in
         if put_res res then begin
-          put_rec rc dims;
+          put_tail rc dims deep res;
           (match res with Ok v -> put_f v | _ -> ());
           put_w "|"
         end) results
@@ -150,19 +177,20 @@ let handler r =
     end else if op = "preinit" then begin
       (* the call made before main, then the same call made from main: the model's process with one call in each phase *)
       let op = word r in
-      let (c, rc, dims) = build_call op r in
+      let (c, rc, dims, deep) = build_call op r in
       (match run_process fops stand_in no_mc [c] [] with
        | [res] ->
            if put_res res then begin
-             put_rec rc dims;
+             put_tail rc dims deep res;
              (match run_process fops stand_in no_mc [] [c] with
               | [Ok v] -> put_f v
               | _ -> put_w "MODELERR main_phase")
            end
        | _ -> put_w "MODELERR process_shape")
     end else begin
-      let (c, rc, dims) = build_call op r in
-      if put_res (run_call fops stand_in no_mc c) then put_rec rc dims
+      let (c, rc, dims, deep) = build_call op r in
+      let res = run_call fops stand_in no_mc c in
+      if put_res res then put_tail rc dims deep res
     end
   with
   | Inner_stop res -> Buffer.clear buf; first := true; ignore (put_res res)
